@@ -193,7 +193,7 @@ func TestVerif_C13_e2eh3(t *testing.T) {
 	base := "https://" + peer.ln.Addr().String()
 	flows := []string{"single", "single", "single", "retry", "redirect"}
 	features := []string{"", "", "", "1xx", "long", "many", "trailer", "empty-value"}
-	n := verifh.N(80, 2500)
+	n := verifh.N(100, 2500)
 	reqAsync := verifh.N(2, 40)
 	var pend []*c13Pending
 	for c := 0; c < n; c++ {
@@ -234,6 +234,10 @@ func TestVerif_C13_e2eh3(t *testing.T) {
 			cnt.add(s, "req-body-via-"+sc.bodyVia)
 		}
 		pend = append(pend, p)
+		if len(pend) >= 200 { // judge in batches: the recorded dumps are large
+			c13Finish(t, s, pend)
+			pend = nil
+		}
 	}
 	c13Finish(t, s, pend)
 	for _, must := range []string{"flow=retry", "flow=redirect", "feature=long", "feature=many", "feature=1xx", "level=both", "req-body-via-reader", "baseline-ok-h3"} {
